@@ -280,8 +280,8 @@ func main() {
 		fmt.Fprintf(os.Stderr, "ENGINE-ERROR %s: %s %s\n", o.Name, o.Status, truncate(o.Output, 800))
 		exit = 2
 	}
-	if len(violations) > 0 && exit == 0 {
-		exit = 1
+	if len(violations) > 0 {
+		exit = 1 // failed obligations are reported even if other obligations hit engine errors (vacuity can only hide failures)
 	}
 	for _, o := range violations {
 		dir := filepath.Join(*replays, pid)
